@@ -45,14 +45,14 @@ CHECKS = {
         TRUSTED + " Layer regexes match exactly their layer's modules; layer modules pairwise unrelated, as the property requires.",
     ),
     "C16": (
-        "explicit-state BFS over builder call histories on the real objects (canonical-state dedup, fixpoint) + TLC model of the builder protocol with every model state replayed against the implementation",
-        "All call histories of the real LayeredArchitecture builder over an 18-action alphabet are explored breadth-first to the fixpoint (the reachable state space is finite) and all LayerRule histories to a depth bound; every transition executes the real method and is classified by an independent specification automaton (must-reject with ImproperlyConfigured at the call / must-accept with exactly the supplied definition). In addition the protocol is modelled in TLA+, TLC checks the well-formedness invariants on every reachable model state, and every model state's history is replayed on the implementation with enabled-in-model <=> accepted-by-implementation for every action.",
+        "explicit-state BFS over builder call histories on the real objects (canonical-state dedup, fixpoint) + TLC models of both builder protocols (LayeredArchitecture, LayerRule) with every model state replayed against the implementation",
+        "All call histories of the real LayeredArchitecture builder over an 18-action alphabet are explored breadth-first to the fixpoint (the reachable state space is finite) and all LayerRule histories to a depth bound; every transition executes the real method and is classified by an independent specification automaton (must-reject with ImproperlyConfigured at the call / must-accept with exactly the supplied definition). In addition both protocols are modelled in TLA+ (LayerBuilder.tla, LayerRuleBuilder.tla), TLC checks the well-formedness invariants on every reachable model state, and every model state's history is replayed on the implementation: enabled-in-model <=> accepted-by-implementation for every action of the LayeredArchitecture alphabet, and for LayerRule the model's class of every possible next call (must-reject / must-accept / free) must hold on the implementation and agree with the Python automaton.",
         "DESIGN.md §4 C16",
         TRUSTED + " TLC 1.8.0 for the model part; the model is bound to the code by replaying all of its states, not only counterexamples.",
     ),
     "C13": (
-        "exhaustive enumeration of builder call histories (plain, no dedup, to a length bound) + BFS with canonical-state dedup to the fixpoint on the real Rule / LayerRule / DiagramRule objects, classified by an independent automaton; TLC model of the Rule builder protocol with every model state replayed against the implementation; exhaustive misspelling, empty-list and option-combination enumeration",
-        "Every call history of the real Rule builder over its 14 fluent methods up to the length bound is executed and ended by assert_applies on two architectures; a BFS with canonical-state deduplication closes the reachable builder state space (fixpoint), so the MUST_ERROR => 'never a verdict' check covers histories of any length. The same is done for LayerRule and DiagramRule. Every architecture x rule shape x position x misspelling (also below the level limit), every never-matching regex and every invalid entry-point option combination must raise and never give a verdict.",
+        "exhaustive enumeration of builder call histories (plain, no dedup, to a length bound) + BFS with canonical-state dedup to the fixpoint on the real Rule / LayerRule / DiagramRule objects, classified by an independent automaton; TLC models of the Rule and LayerRule builder protocols with every model state replayed against the implementation; exhaustive misspelling, empty-list and option-combination enumeration",
+        "Every call history of the real Rule builder over its 14 fluent methods up to the length bound is executed and ended by assert_applies on two architectures; a BFS with canonical-state deduplication closes the reachable builder state space (fixpoint), so the MUST_ERROR => 'never a verdict' check covers histories of any length. The same is done for LayerRule and DiagramRule. The Rule and LayerRule protocols are also modelled in TLA+ (RuleBuilder.tla, LayerRuleBuilder.tla): TLC checks the models' invariants, every model state is replayed on the real builder, its terminal class must agree with the Python automaton and a MUST_ERROR state never yields a verdict. Every architecture x rule shape x position x misspelling (also below the level limit), every never-matching regex and every invalid entry-point option combination must raise and never give a verdict.",
         "DESIGN.md §4 C13",
         TRUSTED + " Only MUST_ERROR histories are enforced; everything the property does not name is don't-care.",
     ),
